@@ -66,6 +66,13 @@ def run(ctx):
             fails.append({"why": "encode failed", "max_ttl": max_ttl, "ttl": req_ttl, "time0": time0, "reply": r})
             return
         cttl = resolve_ttl(req_ttl, 300, max_ttl)
+        # the TTL written INTO the credential (independent parse): 0 -> default, anything above the maximum clamped
+        p = cr.o.parse(r["data"])
+        if p is None or p["msg"]["ttl"] != cttl:
+            fails.append({"why": "encode with requested ttl=%d under --max-ttl=%d put ttl=%s into the credential, the property says %d"
+                                 % (req_ttl, max_ttl, p and p["msg"]["ttl"], cttl), "max_ttl": max_ttl, "req_ttl": req_ttl,
+                          "cred_hex": r["data"].hex()})
+            return
         cr.set_clock(t1)
         d, m, diff = cr.decode_both(r["data"])
         ctx.count((max_ttl, req_ttl, time0, t1))
